@@ -88,7 +88,7 @@ Definition rules_for (RS : list (string * rules)) (k : string) : rules :=
   match assoc k RS with Some R => R | None => [] end.
 
 (* x.Validate() of a record (default ValidateOpts), as far as the regenerated rules know *)
-Definition rec_okb (RS : list (string * rules)) (x : recordR) : bool :=
+Definition rec_passb (RS : list (string * rules)) (x : recordR) : bool :=
   rec_validb (rules_for RS (r_kind x)) (r_val x).
 
 Definition is_rok (r : rule) : bool := match r with ROk => true | _ => false end.
@@ -350,11 +350,11 @@ Variable RS : list (string * rules).         (* Gen/RecRules.v all_rules *)
 Variable AT : tables.                        (* Gen/Tables.v *)
 
 (* ach.NewReader(text).Read(): (file, a batch was left open) *)
-Definition read_file_valid : list bytes -> option (fileR * bool) := g_read_file T (rec_okb RS) (batch_okb AT).
+Definition read_file_valid : list bytes -> option (fileR * bool) := g_read_file T (rec_passb RS) (batch_okb AT).
 (* ... on tree shaped inputs *)
-Definition read_file_strict : list bytes -> option fileR := h_read_file T (rec_okb RS) (batch_okb AT).
+Definition read_file_strict : list bytes -> option fileR := h_read_file T (rec_passb RS) (batch_okb AT).
 
-Definition tree_validb : fileR -> bool := tree_okb (rec_okb RS) (batch_okb AT).
+Definition tree_validb : fileR -> bool := tree_okb (rec_passb RS) (batch_okb AT).
 
 (* Read() followed by file.Validate() *)
 Definition read_then_validate (ls : list bytes) : option (fileR * bool) :=
